@@ -24,6 +24,8 @@ type GenConfig struct {
 	Threshold  int64
 	Late       bool // some clients attach late (by an A step)
 	Deactivate bool // allow X (deactivate) steps
+	LostRetry  bool // allow Sl (response lost) ... Rt (retry later, after others acted)
+	OptOut     bool // some clients attach WithDisableGC
 }
 
 var keys = []string{"k1", "k2", "k3"}
@@ -132,14 +134,22 @@ func Generate(r *rng.R, g GenConfig) *History {
 	}
 	for i := 0; i < steps; i++ {
 		if lc, ok := lateAt[i]; ok {
-			h.Steps = append(h.Steps, Step{Op: "A", C: lc})
+			// upstream's contract for WithDisableGC (docs/design/disable-gc-on-attach.md): the client
+			// neither produces nor consumes tombstones; counters are the safe workload, so opt-out
+			// attachments are generated for counter histories only
+			oo := g.OptOut && r.Chance(1, 2) && g.Flavor == "counter"
+			h.Steps = append(h.Steps, Step{Op: "A", C: lc, OptOut: oo})
 		}
 		c := r.Intn(n)
 		wSync := 4
 		if lazy[c] == 1 {
 			wSync = 1
 		}
-		w := []int{10, wSync, 0, 0, 0, 0, 0, 0, 0}
+		w := []int{10, wSync, 0, 0, 0, 0, 0, 0, 0, 0, 0}
+		if g.LostRetry {
+			w[9] = 2
+			w[10] = 2
+		}
 		if g.Deactivate {
 			w[8] = 1
 		}
@@ -189,6 +199,10 @@ func Generate(r *rng.R, g GenConfig) *History {
 			} else {
 				h.Steps = append(h.Steps, Step{Op: "A", C: c})
 			}
+		case 9:
+			h.Steps = append(h.Steps, Step{Op: "Sl", C: c})
+		case 10:
+			h.Steps = append(h.Steps, Step{Op: "Rt", C: c})
 		case 8:
 			h.Steps = append(h.Steps, Step{Op: "X", C: c})
 		case 7:
